@@ -201,3 +201,15 @@ Fixpoint all_go_on (first : bool) (rs : list response) : bool :=
 (* the engine after serving the inputs with the request driver *)
 Definition eng_after (fuel : nat) (rs : rsrc) (c : config) (e : engine) (inputs : list bytes) : engine :=
   fold_left (fun e i => fst (request_long fuel rs c e i)) inputs e.
+
+(* ---- Loop over a persister (engine.WithPersister) ------------------------------------------------- *)
+(* the engine starts from a store without a record for the session: ensurePersist writes the fresh
+   record during the first Exec; the deferred Finish — exactly ONE call on every exit — saves the
+   session as it is after the last request when the engine got initialised, and nothing otherwise.
+   A persister created WithFlush empties ITS copies after each successful save; the record is the same *)
+Definition loop_persisted_init (c : config) : engine := new_engine c None [] [].
+Definition loop_stored (c : config) (res : bytes * lstat * engine) : option snapshot :=
+  match loop_saved res with
+  | Some sn => Some sn
+  | None => let e0 := loop_persisted_init c in Some (snap_of (v_st (e_v e0)) (v_ca (e_v e0)))
+  end.
